@@ -28,6 +28,10 @@
 //        H N                 N hash inserts + probes (ordinary hash traffic)
 //        P CLASS STRIDE REF  probeDTM on every STRIDE-th placement of CLASS, compared with the
 //                            reference dump file REF ("-" = none)
+//        VG CLASS DELAY      own-memory back end: a TBGenerator<VectorStorage> with its own storage is
+//                            generated (stop injected as for U); it is kept only if it completed
+//        VP CLASS STRIDE REF like P, through the kept own-memory generator of CLASS
+//      every U/X/C line also reports the material of the generator installed afterwards (gen=...)
 #define TEXEL_VERIF_HARNESS 1
 #include <atomic>
 #include <chrono>
@@ -54,6 +58,7 @@
 #include "moveGen.hpp"
 #include "undoInfo.hpp"
 #include <algorithm>
+#include <map>
 
 typedef long long i64;
 
@@ -383,6 +388,20 @@ static std::vector<int16_t> loadDump(const std::string& path, i64 expect) {
     return v;
 }
 
+// material of the installed generator: "q.r.b.n.Q.R.B.N" (white, then black counts) or "-"
+static std::string genSig(const TranspositionTable& tt) {
+    if (!tt.tbGen) return "-";
+    const PieceCount& pc = tt.tbGen->pieceCount;
+    char buf[64];
+    std::snprintf(buf, sizeof buf, "%d.%d.%d.%d.%d.%d.%d.%d", pc.nwq, pc.nwr, pc.nwb, pc.nwn, pc.nbq, pc.nbr, pc.nbb, pc.nbn);
+    return buf;
+}
+
+struct VecGen {
+    VectorStorage storage;
+    std::unique_ptr<TBGenerator<VectorStorage>> gen;
+};
+
 static int modeScript(int argc, char** argv) {
     if (argc < 3) return 3;
     Rng rng((U64)std::atoll(argv[2]));
@@ -390,7 +409,8 @@ static int modeScript(int argc, char** argv) {
     hashTraffic(tt, rng, 1000000);
     Placer pl;
     int d[8];
-    double lastFullMs = 1000.0;
+    double lastFullMs = 1000.0, lastVecMs = 1000.0;
+    std::map<std::string, std::unique_ptr<VecGen>> vecGens;
     std::string line;
     while (std::getline(std::cin, line)) {
         std::istringstream is(line);
@@ -425,8 +445,8 @@ static int modeScript(int argc, char** argv) {
             done.store(true);
             if (stopper.joinable()) stopper.join();
             if (ret && !pre) lastFullMs = t1 - t0;
-            std::printf("U pre=%d ret=%d installed=%d ms=%.1f stop_us=%lld\n", pre ? 1 : 0, ret ? 1 : 0,
-                        tt.tbGen ? 1 : 0, t1 - t0, delayUs);
+            std::printf("U pre=%d ret=%d installed=%d gen=%s ms=%.1f stop_us=%lld\n", pre ? 1 : 0, ret ? 1 : 0,
+                        tt.tbGen ? 1 : 0, genSig(tt).c_str(), t1 - t0, delayUs);
         } else if (op == "X") {
             Position pos;
             pos.setPiece(Square(0), Piece::WKING); pos.setPiece(Square(63), Piece::BKING);
@@ -434,17 +454,24 @@ static int modeScript(int argc, char** argv) {
             pos.setPiece(Square(62), Piece::BROOK);
             RelaxedShared<S64> maxT(-1);
             bool ret = tt.updateTB(pos, maxT);
-            std::printf("X ret=%d installed=%d\n", ret ? 1 : 0, tt.tbGen ? 1 : 0);
+            std::printf("X ret=%d installed=%d gen=%s\n", ret ? 1 : 0, tt.tbGen ? 1 : 0, genSig(tt).c_str());
         } else if (op == "C") {
             tt.clear();
-            std::printf("C installed=%d\n", tt.tbGen ? 1 : 0);
+            std::printf("C installed=%d gen=%s\n", tt.tbGen ? 1 : 0, genSig(tt).c_str());
         } else if (op == "H") {
             i64 n; is >> n;
             hashTraffic(tt, rng, n);
             std::printf("H\n");
-        } else if (op == "P") {
+        } else if (op == "P" || op == "VP") {
             std::string cn, ref; i64 stride; is >> cn >> stride >> ref;
             Cls c = parseClass(cn);
+            Prober pr; pr.vec = nullptr; pr.tt = nullptr;
+            if (op == "P") pr.tt = &tt;
+            else {
+                auto it = vecGens.find(cn);
+                if (it == vecGens.end()) { std::printf("VP any=0 probed=0 found=0 wrong=0 first=-1:0:0 missing=1\n"); std::fflush(stdout); continue; }
+                pr.vec = it->second->gen.get();
+            }
             std::vector<int16_t> refDump;
             if (ref != "-") refDump = loadDump(ref, 2 * c.n65);
             i64 nProbed = 0, nFound = 0, nWrong = 0, firstWrong = -1;
@@ -455,7 +482,7 @@ static int modeScript(int argc, char** argv) {
                 if (!pl.place(c, d, idx < c.n65)) continue;
                 nProbed++;
                 int score = 0;
-                bool found = tt.probeDTM(pl.pos, 0, score);
+                bool found = pr.probe(pl.pos, 0, score);
                 if (!found) continue;
                 nFound++;
                 if (!refDump.empty()) {
@@ -466,8 +493,34 @@ static int modeScript(int argc, char** argv) {
                     }
                 }
             }
-            std::printf("P any=%d probed=%lld found=%lld wrong=%lld first=%lld:%d:%d\n", nFound > 0 ? 1 : 0,
+            std::printf("%s any=%d probed=%lld found=%lld wrong=%lld first=%lld:%d:%d\n", op.c_str(), nFound > 0 ? 1 : 0,
                         nProbed, nFound, nWrong, firstWrong, fwScore, fwRef);
+        } else if (op == "VG") {
+            // own-memory back end: a generator with its own VectorStorage; kept only if complete
+            std::string cn, ds; is >> cn >> ds;
+            Cls c = parseClass(cn);
+            i64 delayUs = (!ds.empty() && ds[0] == 'p') ? (i64)(std::atof(ds.c_str() + 1) * lastVecMs) : std::atoll(ds.c_str());
+            std::unique_ptr<VecGen> vg(new VecGen);
+            vg->gen.reset(new TBGenerator<VectorStorage>(vg->storage, c.pc));
+            RelaxedShared<S64> maxT(-1);
+            std::atomic<bool> go(false), done(false);
+            std::thread stopper;
+            if (delayUs >= 0) {
+                stopper = std::thread([&]() {
+                    while (!go.load()) { }
+                    double t0 = nowMs();
+                    while (!done.load() && (nowMs() - t0) * 1000.0 < (double)delayUs) { }
+                    maxT = 0;
+                });
+            }
+            double t0 = nowMs();
+            go.store(true);
+            bool ret = vg->gen->generate(maxT, false);
+            double t1 = nowMs();
+            done.store(true);
+            if (stopper.joinable()) stopper.join();
+            if (ret) { lastVecMs = t1 - t0; vecGens[cn] = std::move(vg); }
+            std::printf("VG ret=%d ms=%.1f stop_us=%lld\n", ret ? 1 : 0, t1 - t0, delayUs);
         } else if (!op.empty()) {
             std::fprintf(stderr, "bad op %s\n", op.c_str());
             return 3;
